@@ -239,29 +239,62 @@ func checkC11(c *Check) {
 			for _, ci := range callsNamed(rt, "(*flamego.router).addRoute") {
 				pv := ci.Common().Args[2]
 				sawPlain, sawConcat := false, false
+				otherLeaf := false
+				var concatAt ssa.Instruction
 				phiLeaves(pv, func(l ssa.Value) {
 					if vParam(rt, 2)(l) {
 						sawPlain = true
 						return
 					}
 					if b, ok := l.(*ssa.BinOp); ok && b.Op == token.ADD && vParam(rt, 2)(b.Y) {
+						concatAt = b
 						if acc, ok := strip(b.X).(*ssa.Phi); ok {
-							i0, st := false, false
-							for _, e := range acc.Edges {
+							i0, st, skipped := false, false, false
+							accLeaves(acc, func(e ssa.Value) {
 								if vConstStr("")(e) {
 									i0 = true
 								} else if bb, ok := strip(e).(*ssa.BinOp); ok && bb.Op == token.ADD && strip(bb.X) == ssa.Value(acc) && gField("path")(bb.Y) {
 									st = true
+								} else {
+									skipped = true // an iteration can leave the accumulator as it was, or set it to something else
 								}
-							}
-							if i0 && st {
+							})
+							if i0 && st && !skipped {
 								sawConcat = true
+								return
 							}
 						}
 					}
+					if cl := asCall(l); cl != nil && strings.HasSuffix(callName(&cl.Call), ").String") {
+						return // the builder form below
+					}
+					otherLeaf = true
 				})
-				okPath = sawPlain && sawConcat
-				if !okPath && sawPlain {
+				// the prefix walk may be unconditional (no groups: "" + routePath); the plain path is registered
+				// only where the stack was tested empty
+				plainOK := func() bool {
+					if !sawPlain {
+						return true
+					}
+					if concatAt == nil {
+						return false
+					}
+					anyStack := func(v ssa.Value) bool {
+						if groups(v) {
+							return true
+						}
+						f := fieldOf(addrOfLoad(strip(v)))
+						return f != nil && (f == fPaths || f == fHandlerLists) && recv(fieldRoot(v))
+					}
+					empty := edgesWhere(rt, cCmp(token.GTR, vLen(anyStack), vConstInt(0)), false)
+					if len(empty) == 0 {
+						return false
+					}
+					in, _ := Query{Fn: rt, Cut: empty, Avoid: func(x ssa.Instruction) bool { return x.Block() == concatAt.Block() }}.FromEntry(isInstr(ci))
+					return in == nil
+				}
+				okPath = sawConcat && !otherLeaf && plainOK()
+				if !okPath && !sawConcat && !otherLeaf {
 					// the same text assembled in a local strings.Builder / bytes.Buffer: the group paths written in
 					// one ascending walk, then the route's own path, then String()
 					phiLeaves(pv, func(l ssa.Value) {
@@ -316,8 +349,9 @@ func checkC11(c *Check) {
 							}
 						}
 						sawConcat = true
+						concatAt = cl
 					})
-					okPath = sawPlain && sawConcat
+					okPath = sawConcat && plainOK()
 				}
 				c.Cond(vParam(rt, 1)(ci.Common().Args[1]), key+":method", p.Pos(ci.Pos()), "method passed through", "Route registers under a different method than given")
 			}
@@ -368,15 +402,17 @@ func checkC11(c *Check) {
 						why = "the route's handlers are not appended onto the accumulated group handlers"
 						continue
 					}
-					i0, st2 := false, false
-					for _, e := range hs.Edges {
+					i0, st2, skipped := false, false, false
+					accLeaves(hs, func(e ssa.Value) {
 						if a2 := asCall(e); a2 != nil && callName(&a2.Call) == "builtin.append" && strip(a2.Call.Args[0]) == ssa.Value(hs) && gField("handlers")(a2.Call.Args[1]) {
 							st2 = true
 						} else if isFresh(e) {
 							i0 = true
+						} else {
+							skipped = true
 						}
-					}
-					if i0 && st2 {
+					})
+					if i0 && st2 && !skipped {
 						okH = true
 					} else {
 						why = "group handlers are not accumulated as fresh ← g0.handlers ← g1.handlers …"
@@ -825,4 +861,69 @@ func fieldRoot(v ssa.Value) ssa.Value {
 		return nil
 	}
 	return r
+}
+
+// accLeaves visits the values a loop accumulator φ can take: its edges, looking through nested φs; the
+// accumulator itself reached through a nested φ (an iteration that leaves it unchanged) is reported too.
+func accLeaves(acc *ssa.Phi, f func(ssa.Value)) {
+	seen := map[*ssa.Phi]bool{acc: true}
+	var walk func(ph *ssa.Phi, top bool)
+	walk = func(ph *ssa.Phi, top bool) {
+		for _, e := range ph.Edges {
+			e = strip(e)
+			if e == ssa.Value(acc) {
+				f(e)
+				continue
+			}
+			if in, ok := e.(*ssa.Phi); ok {
+				if !seen[in] {
+					seen[in] = true
+					walk(in, false)
+				}
+				continue
+			}
+			f(e)
+		}
+	}
+	walk(acc, true)
+}
+
+// copyOf: v is a private copy of the slice A, complete before the instruction `before`:
+// make([]T, len(A)) + copy(v, A), append(fresh-empty, A...), or slices.Clone(A). Handing v to a callee
+// (element-wise wrapping) is not a write of the list structure; an indexed store here is.
+func copyOf(fn *ssa.Function, v ssa.Value, A VM, before ssa.Instruction) bool {
+	v = strip(v)
+	if cl := asCall(v); cl != nil {
+		switch callName(&cl.Call) {
+		case "slices.Clone":
+			return A(cl.Call.Args[0])
+		case "builtin.append":
+			return A(cl.Call.Args[1]) && isEmptyFreshSlice(cl.Call.Args[0])
+		}
+		return false
+	}
+	ms, ok := v.(*ssa.MakeSlice)
+	if !ok || !linSum(0, vLen(A))(linOf(ms.Len)) {
+		return false
+	}
+	var c1 ssa.Instruction
+	n := 0
+	for _, r := range referrers(ms) {
+		switch x := r.(type) {
+		case ssa.CallInstruction:
+			if callName(x.Common()) == "builtin.copy" && strip(x.Common().Args[0]) == ssa.Value(ms) {
+				n++
+				if A(x.Common().Args[1]) {
+					c1 = x
+				}
+			}
+		case *ssa.IndexAddr, *ssa.Slice:
+			return false
+		}
+	}
+	if c1 == nil || n != 1 {
+		return false
+	}
+	ok1, _ := mustPrecede(fn, isInstr(c1), before)
+	return ok1
 }
